@@ -10,7 +10,7 @@ import operator
 from fractions import Fraction as F
 
 from .. import oracle as O
-from ..core import Stats, pmap
+from ..core import Stats, guarded, pmap
 from ..world import World
 from . import amounts as A
 
@@ -32,6 +32,7 @@ def mk(w, cls, s, x, rep):
         return cls(x, w.units[s])
 
 
+@guarded('C04')
 def run_cmp(w, tname, s1, x1, r1, s2, x2, r2, st=None):
     cls = w.types[tname]
     q1, q2 = mk(w, cls, s1, x1, r1), mk(w, cls, s2, x2, r2)
@@ -62,6 +63,7 @@ def run_cmp(w, tname, s1, x1, r1, s2, x2, r2, st=None):
     return out
 
 
+@guarded('C04')
 def run_units(w, tname, s1, s2):
     out = []
     u1, u2 = w.units[s1], w.units[s2]
@@ -79,6 +81,7 @@ def run_units(w, tname, s1, s2):
     return out
 
 
+@guarded('C04')
 def run_sorted(w, tname, items):
     """items: [[sym, value as 'n/d', rep], ...]; sorted() must order by
     reference value (stable for equal values)."""
